@@ -253,12 +253,15 @@ Definition layout_as_pct (l : layout) (w h : option Q) : result layout :=
 Definition size_add (a b : size) : result size :=
   if unit_eqb (s_unit a) (s_unit b) then Ok (mkSize (Qred (s_val a + s_val b)%Q) (s_unit a)) else Err ValueError.
 
+Definition clamp0 (q : Q) : Q := if Qle_bool 0 q then q else 0%Q.
+
 Definition layout_fit (l : layout) : result layout :=
   match l_origin l with
   | None => Ok l
   | Some o =>
-      let dh := mkSize (Qred (90 - s_val (p_x o))%Q) PCT in
-      let dv := mkSize (Qred (95 - s_val (p_y o))%Q) PCT in
+      (* max(0, 90 - x): an origin beyond the safe area leaves a 0% extent, never a negative one *)
+      let dh := mkSize (Qred (clamp0 (90 - s_val (p_x o)))%Q) PCT in
+      let dv := mkSize (Qred (clamp0 (95 - s_val (p_y o)))%Q) PCT in
       match l_extent l with
       | None => Ok (mkLayout (Some o) (Some (mkStretch dh dv)) (l_padding l) (l_alignment l) None)
       | Some e =>
